@@ -1722,4 +1722,75 @@ theorem world_accessors_spec (p : MP2 K) (m : Iso2 K) (p3 : MP3 K) (m3 : Iso3 K)
     p3.worldCom m3 = (p3.transformBy m3).com := by
   exact ⟨rfl, rfl, rfl⟩
 
+/-! ### composing refinement rules; the refined rectangle is the cuboid -/
+
+/-- list form of `PartEq`: refining every triangle of a list by a moment-preserving rule keeps the four totals -/
+theorem partEq_flatMap (ρ : K) (f : Triangle2 K → List (Triangle2 K)) (hf : PartEq sq ρ f) (ts : List (Triangle2 K)) :
+    totMass ((ts.flatMap f).map (@fromTriangle K (fieldNum K sq) ρ)) = totMass (ts.map (@fromTriangle K (fieldNum K sq) ρ)) ∧
+    totFx ((ts.flatMap f).map (@fromTriangle K (fieldNum K sq) ρ)) = totFx (ts.map (@fromTriangle K (fieldNum K sq) ρ)) ∧
+    totFy ((ts.flatMap f).map (@fromTriangle K (fieldNum K sq) ρ)) = totFy (ts.map (@fromTriangle K (fieldNum K sq) ρ)) ∧
+    ∀ p : V2 K, totMoment ((ts.flatMap f).map (@fromTriangle K (fieldNum K sq) ρ)) p
+      = totMoment (ts.map (@fromTriangle K (fieldNum K sq) ρ)) p := by
+  induction ts with
+  | nil => exact ⟨rfl, rfl, rfl, fun _ => rfl⟩
+  | cons t l ih =>
+    obtain ⟨i1, i2, i3, i4⟩ := ih
+    obtain ⟨f1, f2, f3, f4⟩ := hf t
+    simp only [totMass, totFx, totFy, totMoment, List.flatMap_cons, List.map_append, List.sum_append, List.map_cons,
+      List.sum_cons, List.map_nil, List.sum_nil, add_zero] at i1 i2 i3 i4 f1 f2 f3 f4 ⊢
+    exact ⟨by rw [i1, f1], by rw [i2, f2], by rw [i3, f3], fun p => by rw [i4 p, f4 p]⟩
+
+/-- moment-preserving rules compose: refine by `f`, then every piece by `g` (so any number of levels, any mixture of
+midpoint subdivision and point insertion, is again moment preserving) -/
+theorem partEq_comp (ρ : K) (f g : Triangle2 K → List (Triangle2 K)) (hf : PartEq sq ρ f) (hg : PartEq sq ρ g) :
+    PartEq sq ρ (fun t => (f t).flatMap g) := by
+  intro t
+  obtain ⟨k1, k2, k3, k4⟩ := partEq_flatMap sq ρ g hg (f t)
+  obtain ⟨f1, f2, f3, f4⟩ := hf t
+  exact ⟨k1.trans f1, k2.trans f2, k3.trans f3, fun p => (k4 p).trans (f4 p)⟩
+
+/-- **rectangle vs. every refinement of its triangulation**: the two-triangle rectangle `[0,w]×[0,h]` refined by any
+moment-preserving rule (e.g. `n` levels of midpoint subdivision, then a point inserted in every piece) has mass `ρwh`,
+centre `(w/2, h/2)` and inertia `ρwh(w²+h²)/12` — exactly `from_cuboid(ρ, (w/2, h/2))`. -/
+theorem trimesh_rectangle_refined (hs : LawfulSqrt sq) (ρ w h : K) (hρ : 0 < ρ) (hw : 0 < w) (hh : 0 < h)
+    (f : Triangle2 K → List (Triangle2 K)) (hf : PartEq sq ρ f) :
+    letI := fieldNum K sq
+    let ts : List (Triangle2 K) := [⟨⟨0, 0⟩, ⟨w, 0⟩, ⟨w, h⟩⟩, ⟨⟨0, 0⟩, ⟨w, h⟩, ⟨0, h⟩⟩]
+    massOf (fromTrimeshTris ρ (ts.flatMap f)) = ρ * (w * h) ∧
+    (fromTrimeshTris ρ (ts.flatMap f)).com = ⟨w / 2, h / 2⟩ ∧
+    inertiaOf (fromTrimeshTris ρ (ts.flatMap f)) = ρ * (w * h) * ((w ^ 2 + h ^ 2) / 12) ∧
+    inertiaOf (fromTrimeshTris ρ (ts.flatMap f)) = inertiaOf (fromCuboid2 ρ ⟨w / 2, h / 2⟩) := by
+  intro ts
+  obtain ⟨r1, r2, r3, -, r5⟩ := trimesh_rectangle sq hs ρ w h hρ hw hh
+  have hS := from_trimesh2_refine sq hs ρ hρ.le f hf ts
+  have hm : massOf (@fromTrimeshTris K (fieldNum K sq) ρ (ts.flatMap f)) ≠ 0 := by
+    rw [hS.1]
+    have : massOf (@fromTrimeshTris K (fieldNum K sq) ρ ts) = ρ * (w * h) := r1
+    rw [this]; positivity
+  obtain ⟨o1, o2, o3⟩ := sameMoments_obs _ _ hS hm
+  exact ⟨o1.trans r1, o2.trans r2, o3.trans r3, o3.trans r5⟩
+
+/-- non-vacuity: two levels of midpoint subdivision followed by centroid insertion is a moment-preserving rule -/
+example (hs : LawfulSqrt (fun x : ℝ => Real.sqrt x)) (ρ : ℝ) (hρ : 0 ≤ ρ) :
+    PartEq (fun x : ℝ => Real.sqrt x) ρ
+      (fun t => ((midpoint4₂ t).flatMap midpoint4₂).flatMap (insertPoint₂ (1 / 3) (1 / 3))) :=
+  partEq_comp _ ρ _ _ (partEq_comp _ ρ _ _ (midpoint4₂_partEq _ hs ρ hρ) (midpoint4₂_partEq _ hs ρ hρ))
+    (insertPoint₂_partEq _ hs ρ hρ _ _ (by norm_num) (by norm_num) (by norm_num))
+
+/-- **tetrahedron vs. every level of refinement of its boundary**: the `4·4ⁿ`-triangle boundary of a non-degenerate
+tetrahedron (and then one more point in the plane of every triangle), wound either way, returns the centroid, the mass
+`ρ|vol|` and the tensor `ρ|vol|·J(centroid)` of the solid tetrahedron, for every vertex average. -/
+theorem from_trimesh3_tetra_refined (ρ : K) (gc p0 p1 p2 p3 : V3 K) (hV : vol4 p0 p1 p2 p3 ≠ 0) (n : Nat)
+    (pt : Triangle3 K → V3 K) (hpt : ∀ t, vol4 (pt t) t.a t.b t.c = 0) :
+    letI := fieldNum K sq
+    let g : V3 K := ⟨(p0.x + p1.x + p2.x + p3.x) / 4, (p0.y + p1.y + p2.y + p3.y) / 4, (p0.z + p1.z + p2.z + p3.z) / 4⟩
+    let want := some (g, ρ * |vol4 p0 p1 p2 p3|, mscale (unitInertia4 g p0 p1 p2 p3) (ρ * |vol4 p0 p1 p2 p3|))
+    fromTrimesh3Raw ρ gc ((refineN n (tetraTris p0 p1 p2 p3)).flatMap fun t => insertPoint t (pt t)) = want ∧
+    fromTrimesh3Raw ρ gc ((refineN n (flipTris (tetraTris p0 p1 p2 p3))).flatMap fun t => insertPoint t (pt t)) = want := by
+  intro g want
+  obtain ⟨b1, b2⟩ := from_trimesh3_tetra sq ρ gc p0 p1 p2 p3 hV
+  have hct := (tetra_box_closed p0 p1 p2 p3 p0).1
+  exact ⟨(from_trimesh3_subdivided sq ρ gc gc _ hct n pt hpt).trans b1,
+    (from_trimesh3_subdivided sq ρ gc gc _ (closed3_flip_append _ _ hct hct).1 n pt hpt).trans b2⟩
+
 end C13
